@@ -2552,11 +2552,40 @@ where
 ///
 /// Returns a [`DelaunayRepairError`] if the repair fails to converge or an underlying
 /// flip operation encounters an unrecoverable error.
+pub(crate) fn repair_delaunay_with_flips_k2_k3<K, U, V, const D: usize>(
+    tds: &mut Tds<K::Scalar, U, V, D>,
+    kernel: &K,
+    seed_cells: Option<&[CellKey]>,
+    topology: TopologyGuarantee,
+) -> Result<DelaunayRepairStats, DelaunayRepairError>
+where
+    K: Kernel<D>,
+    K::Scalar: ScalarSummable,
+    U: DataType,
+    V: DataType,
+{
+    if D < 2 {
+        return Err(FlipError::UnsupportedDimension { dimension: D }.into());
+    }
+
+    // Transactional guard: the attempts below restore the pre-repair snapshot only *between*
+    // attempts.  An error returned by the last attempt, by its postcondition check, or by a
+    // non-retryable failure of an earlier attempt would otherwise leave the flips of the failed
+    // attempt applied.  Err must mean "unchanged".
+    let pre_repair = tds.clone();
+    let result = repair_delaunay_with_flips_k2_k3_attempts(tds, kernel, seed_cells, topology);
+    if result.is_err() {
+        *tds = pre_repair;
+    }
+    result
+}
+
+/// The three repair attempts of [`repair_delaunay_with_flips_k2_k3`] (no rollback on `Err`).
 #[expect(
     clippy::too_many_lines,
     reason = "Repair retries and tracing are kept together for clarity"
 )]
-pub(crate) fn repair_delaunay_with_flips_k2_k3<K, U, V, const D: usize>(
+fn repair_delaunay_with_flips_k2_k3_attempts<K, U, V, const D: usize>(
     tds: &mut Tds<K::Scalar, U, V, D>,
     kernel: &K,
     seed_cells: Option<&[CellKey]>,
@@ -2568,9 +2597,6 @@ where
     U: DataType,
     V: DataType,
 {
-    if D < 2 {
-        return Err(FlipError::UnsupportedDimension { dimension: D }.into());
-    }
 
     // In debug/test builds (especially for 3D+), prefer a fully-robust predicate pass.
     // This materially improves correctness in near-degenerate configurations.
